@@ -6,6 +6,7 @@ CONSTANTS
   Kinds = {"text", "walk"}
   LastBy = "identity"
   ResetIdx = TRUE
+  OpsAtEnd = 2
   Interleave = TRUE
   BadArgs = FALSE
 INVARIANTS HistoryIndependent MarkdownEquivalent NoDuplicateSiblings
